@@ -62,6 +62,7 @@ func checkC13(c *Ctx) {
 	r.Rule("R3.repeater", "repeater-compatible N <= non-repeater N for the same (band, dwell, version, revision, DR)")
 	r.Rule("R3.sfmono", "within one bandwidth and one direction N does not shrink as SF decreases")
 	r.Rule("R4.injective", "no two data-rates usable in the same direction have identical parameters")
+	r.Rule("R7.payload-lookup", "GetMaxPayloadSizeForDataRateIndex resolves every (version, revision, DR), known or unknown, through the two-level latest fallback of the evaluated table")
 	r.Rule("R6.lookup", "GetDataRateIndex specialised at each (defined DR, supported direction) returns that DR's index (unique by R4)")
 	r.Rule("R5.reference", "default channels, RX2 frequency/DR, DR definitions and TX-power step equal spec/regional.json")
 
@@ -244,6 +245,7 @@ func checkC13(c *Ctx) {
 		}
 		r.OK("R4.injective", id+"/dataRates", P.Rel(cfg.CtorDecl.Pos()), "pairwise comparison of all DR definitions", fmt.Sprintf("%d definitions compared", len(drs)), false)
 		c13Lookup(c, bands, cfg, drs)
+		c13PayloadLookup(c, bands, cfg, drs, versions, revisions, verSet)
 
 		// ---- R5 reference
 		fam, ok := reg.Bands[family(cfg.Canon())]
@@ -269,6 +271,78 @@ func checkC13(c *Ctx) {
 			"repeater N <= non-repeater N", fmt.Sprintf("repeater N=%d, non-repeater N=%d (at %s)", rp.N, np.N, P.Rel(np.Pos)), rp.N != np.N)
 	}
 	c13FallbackKeys(c)
+}
+
+// c13PayloadLookup specialises GetMaxPayloadSizeForDataRateIndex at every (version, revision, DR) point — the six
+// declared versions plus an unknown one, the seven declared revisions plus an unknown one, every defined DR plus
+// one undefined — and compares with the two-level `latest` fallback applied to the evaluated table.
+func c13PayloadLookup(c *Ctx, bands *tables.Bands, cfg *tables.BandConfig, drs []tables.DataRate, versions, revisions map[string]bool, tab map[string]map[string]map[int]tables.PayloadCell) {
+	r := c.Run
+	fd := cfg.Methods["GetMaxPayloadSizeForDataRateIndex"]
+	if fd == nil {
+		r.Unknown("R7.payload-lookup", cfg.Short(), "", "method present", "missing")
+		return
+	}
+	pn := paramNames(fd)
+	if len(pn) != 3 {
+		r.Unknown("R7.payload-lookup", cfg.Short(), c.Prog.Rel(fd.Pos()), "three parameters", fmt.Sprint(pn))
+		return
+	}
+	vs := append(keysOfBool(versions), "9.9.9-unknown")
+	rs := append(keysOfBool(revisions), "RP-unknown")
+	var drl []int
+	for _, d := range drs {
+		drl = append(drl, d.Index)
+	}
+	drl = append(drl, 15)
+	bad, n := 0, 0
+	first := ""
+	for _, v := range vs {
+		for _, rv := range rs {
+			for _, dr := range drl {
+				n++
+				// model
+				vt, ok := tab[v]
+				if !ok {
+					vt = tab["latest"]
+				}
+				var cell *tables.PayloadCell
+				if vt != nil {
+					rt, ok := vt[rv]
+					if !ok {
+						rt = vt["latest"]
+					}
+					if rt != nil {
+						if pc, ok := rt[dr]; ok {
+							cell = &pc
+						}
+					}
+				}
+				res, _, okc := bands.EvalMethod(cfg, "GetMaxPayloadSizeForDataRateIndex", map[string]tables.Value{pn[0]: tables.Str{V: v}, pn[1]: tables.Str{V: rv}, pn[2]: tables.Int{V: int64(dr)}})
+				if !okc || len(res) != 2 {
+					r.Unknown("R7.payload-lookup", fmt.Sprintf("%s/lookup(%s,%s,DR%d)", cfg.Short(), v, rv, dr), c.Prog.Rel(fd.Pos()), "lookup inside the evaluable subset", fmt.Sprint(bands.Ev.Diag))
+					return
+				}
+				_, errNil := res[1].(tables.Nil)
+				good := false
+				if cell == nil {
+					good = !errNil
+				} else {
+					M, _ := tables.AsInt(tables.Field(res[0], "M"))
+					N, _ := tables.AsInt(tables.Field(res[0], "N"))
+					good = errNil && M == cell.M && N == cell.N
+				}
+				if !good {
+					bad++
+					if first == "" {
+						first = fmt.Sprintf("(%s, %s, DR%d) -> %s, %s; model: %v", v, rv, dr, tables.Show(res[0]), tables.Show(res[1]), cell)
+					}
+				}
+			}
+		}
+	}
+	r.Check(bad == 0, "R7.payload-lookup", cfg.Short()+"/GetMaxPayloadSizeForDataRateIndex", c.Prog.Rel(fd.Pos()),
+		fmt.Sprintf("all %d (version, revision, DR) points resolve through table[version|latest][revision|latest][DR]", n), fmt.Sprintf("%d mismatches; first: %s", bad, first), true)
 }
 
 // c13Lookup specialises GetDataRateIndex at every (defined DR, supported direction) point of the evaluated
